@@ -67,7 +67,8 @@ class StarmapUpdate(NodeUpdate):
         return [
             Clause('C01.one_output_per_input', ['C01'],
                    text='emitted == [self.func(*(x + self.args), **self.kwargs)]'),
-            Clause('C10.metadata_unchanged', ['C10'], text='emitted_md == [metadata]'),
+            Clause('C10.metadata_unchanged', ['C10', 'C09'], text='emitted_md == [metadata]',
+                   note='from_kafka_batched hands out a starmap node: the commit counter of a batch must travel with it (C09)'),
         ] + PASS_THROUGH_PLUMBING + self.standard_clauses() + user_raise_clauses(self) + downstream_raise_clauses(self)
 
 
